@@ -1,6 +1,10 @@
 """C16 - codecs round-trip losslessly, decoders are total, RDF c14n is label-invariant.
 
 specs/codec/Graph6.tla       graph6 / digraph6 as arithmetic on byte sequences (Enc, Dec, Valid, Class)
+specs/codec/Graph6Ids.tla    Encode on ANY graph: the encoding as a function of the node ID set (64-bit IDs as [anchor, offset],
+                             printed as decimal strings) sorted ascending and the arc set; rank relabelling
+specs/codec/RdfDecoder.tla   the N-Quads stream decoder as an object with a history: NewDecoder / Reset on a zero value, Reset,
+                             Unmarshal, Unmarshal until io.EOF; lines left + set of terms that have a UID
 specs/codec/MatBinary.tla    the 40-byte header of mat's binary form and the decision table of the decoders
 specs/codec/RdfIso.tla       datasets as sets of quads (s, p, o, g), isomorphism by brute force over blank-node bijections
                              (acting on subject, object and graph label), statement order for Deduplicate, plan of all
@@ -58,6 +62,39 @@ def run_graph6(ctx, bins, dirs=(False, True)):
         g6(ctx, bins, fam + ": strings <= %d over 12 letters + mutants of all encodings + header grid" % (4 if thorough else 3),
            d, ["strings", "mutants", "hdr"], maxlen=4 if thorough else 3, alphabet=A12,
            maxn=(3 if d else 4) if not thorough else (4 if d else 5), bigns="{0, 1, 2, 3, 5, 62, 63, 64}")
+
+
+def run_graph6_ids(ctx, bins):
+    """Encode on graphs whose node IDs are any int64 values (Graph6Ids.tla): every ID set with <= 3 members of an 11-ID pool
+    (MinInt64, MinInt64+1, -5, -1, 0, 1, 2, 3, 7, MaxInt64-1, MaxInt64) x every digraph / graph on it; thorough adds every
+    ID set with <= 4 members of an 8-ID pool (digraphs on 4 nodes: a seed-chosen shard of 4 by arc count)."""
+    thorough = ctx.tier == "thorough"
+    plans = [(d, 3, True, 0, 1) for d in (True, False)]
+    if thorough:
+        plans += [(False, 4, False, 0, 1), (True, 4, False, ctx.seed % 4, 4)]
+    for d, idn, wide, shard, nshards in plans:
+        fam = "digraph6" if d else "graph6"
+        what = "%s: every node ID set with <= %d members of the %s pool x every %s on it" % (
+            fam, idn, "11-ID" if wide else "8-ID", "digraph" if d else "graph")
+        if nshards > 1:
+            what += ", arc-count shard %d/%d (by seed)" % (shard, nshards)
+        cases = ctx.gen("codec/Graph6Ids.tla", "codec/Graph6Ids.cfg",
+                        subst=dict(DIRECTED="TRUE" if d else "FALSE", SEED=ctx.seed if nshards > 1 else 0, EMIT="TRUE", IDN=idn,
+                                   WIDE="TRUE" if wide else "FALSE", SHARD=shard, NSHARDS=nshards),
+                        name="R1+R2 gen " + what)
+        for bn, b in bins.items():
+            ctx.replay(b, "codec-graph6", cases, name="R2 replay %s, 4-9 containers [%s]" % (what, bn))
+
+
+def run_rdf_decoder(ctx, bins):
+    """Histories of one rdf.Decoder (RdfDecoder.tla): a creating operation (NewDecoder(d) / Reset(d) on a zero value, 4
+    documents) followed by every sequence of MaxOps-1 operations from {Unmarshal, Unmarshal until io.EOF, Reset(d)}."""
+    maxops = 6 if ctx.tier == "thorough" else 5
+    cases = ctx.gen("codec/RdfDecoder.tla", "codec/RdfDecoder.cfg", subst=dict(MAXOPS=maxops, EMIT="TRUE", SHARD=0, NSHARDS=1),
+                    name="R1+R2 gen rdf.Decoder histories: 8 creating operations x every %d operations over 4 documents" % (maxops - 1))
+    for bn, b in bins.items():
+        ctx.replay(b, "codec-rdfdec", cases, ["forms=lf,crlf,nofinal", "readers=whole,onebyte,dataerr"],
+                   name="R2 replay rdf.Decoder histories, 3 line forms x 3 readers [%s]" % bn)
 
 
 def run_mat(ctx, bins):
@@ -273,6 +310,10 @@ def run(ctx):
     builds = [("default", "")]
     bins = {n: ctx.build(t) for n, t in builds}
 
+    def object_histories():
+        run_rdf_decoder(ctx, bins)
+        run_graph6_ids(ctx, bins)
+
     def small_families():
         run_mat(ctx, bins)
         run_dot(ctx, bins)
@@ -282,7 +323,8 @@ def run(ctx):
 
     # independent families side by side (the generators are single-threaded TLC runs)
     ctx.parallel([lambda: run_graph6(ctx, bins, (False,)), lambda: run_graph6(ctx, bins, (True,)),
-                  lambda: run_rdf(ctx, bins), lambda: run_rdf_quads(ctx, bins), small_families, lambda: run_prng(ctx, bins)], width=6)
+                  lambda: run_rdf(ctx, bins), lambda: run_rdf_quads(ctx, bins), small_families, lambda: run_prng(ctx, bins),
+                  object_histories], width=7)
 
     ctx.assumptions += [
         "TLC/SANY and the CommunityModules Json module are trusted",
